@@ -43,6 +43,9 @@ func (g *Gen) hostType(depth int, uniform bool) *Type {
 		return g.U.Vec(r.Range(2, 4), g.hostScalar())
 	case 2:
 		rows := r.Range(2, 4)
+		if rows == 2 && !g.on("type.matCx2") {
+			rows = 3
+		}
 		if uniform && rows == 2 {
 			if !g.on("uniform.matCx2") {
 				rows = 4
@@ -53,6 +56,13 @@ func (g *Gen) hostType(depth int, uniform bool) *Type {
 		return g.U.Mat(r.Range(2, 4), rows, F32)
 	case 3:
 		et := g.hostType(depth-1, uniform)
+		if et.Kind == KArray {
+			if !g.on("type.array-of-array") {
+				et = g.hostScalar()
+			} else {
+				g.feat("type.array-of-array")
+			}
+		}
 		if uniform {
 			// uniform arrays need a 16-byte multiple stride: vec4 / mat with vec4 columns... keep to vec4 and 16-aligned structs
 			switch r.Intn(2) {
@@ -162,6 +172,13 @@ func (g *Gen) Generate() *Program {
 	// private / workgroup globals
 	for i, n := 0, r.Intn(3); i < n; i++ {
 		t := g.randValueType()
+		if t.Kind == KArray {
+			if !g.on("private.array") {
+				t = t.Elem
+			} else {
+				g.feat("private.array")
+			}
+		}
 		v := &Var{Name: g.name("pv"), Kind: VGlobal, Ty: t, Space: "private"}
 		if r.Bool() && g.on("private.implicit-init") {
 			for k := 0; k < 5 && v.Init == nil; k++ {
